@@ -120,8 +120,8 @@ fn run_async_driven<R: futures_util::io::AsyncRead + mediasan_common::AsyncSkip 
     out.join(",")
 }
 
-pub const ADAPTERS: [&str; 15] = [
-    "abufreader-pend", "apinbox-pend",
+pub const ADAPTERS: [&str; 17] = [
+    "abufreader-pend", "apinbox-pend", "arefmut", "abox",
     "cursor", "seekskip", "bufreader", "bufreader-seekskip", "refmut", "box", "bufreader-box-bufreader", "file",
     "acursor", "aseekskip", "abufreader", "apinbox", "abufreader-abufreader",
 ];
@@ -167,6 +167,11 @@ pub fn run_adapter(adapter: &str, cap: usize, s: &Sparse, ops: &[Op]) -> String 
                         let sched: Vec<bool> = (0..100_000).map(|i| i % 3 != 2).collect();
                         run_async_driven(Box::pin(ABufReader::with_capacity(cap, crate::c12::pend_native(&sp, sched))), ops)
                     }
+                    "arefmut" => {
+                        let mut c = ABufReader::with_capacity(cap, ACursor::new(d));
+                        run_async(&mut c, ops)
+                    }
+                    "abox" => run_async(Box::new(ABufReader::with_capacity(cap, ACursor::new(d))), ops),
                     "abufreader-abufreader" => run_async(ABufReader::with_capacity(cap, ABufReader::with_capacity(3, ACursor::new(d))), ops),
                     other => panic!("unknown adapter {other}"),
                 }
@@ -232,7 +237,7 @@ pub fn run<W: Write>(opts: &Opts, out: &mut W) {
                     continue;
                 }
                 // rotate through the buffered adapters; the unbuffered ones only need one capacity
-                let adapter = ["bufreader", "bufreader-seekskip", "abufreader", "refmut", "box", "apinbox", "bufreader-box-bufreader", "abufreader-abufreader", "abufreader-pend", "apinbox-pend"][(idx % 10) as usize];
+                let adapter = ["bufreader", "bufreader-seekskip", "abufreader", "refmut", "box", "apinbox", "bufreader-box-bufreader", "abufreader-abufreader", "abufreader-pend", "apinbox-pend", "arefmut", "abox"][(idx % 12) as usize];
                 emit(out, &format!("ex{len}-{code}-{cap}"), adapter, cap, &s8, &ops);
                 if cap == 1 {
                     for a in ["cursor", "seekskip", "acursor", "aseekskip"] {
